@@ -423,8 +423,8 @@ class SmfTie(KindTie):
 
 @register
 class SmfSpecTie(SmfTie):
-    """the specification side: Lean `File.build` == the Python generator's bytes; where `OK` and `Aligned` hold the real
-    class reports `File.expected`; elsewhere only the code-side model is compared"""
+    """the specification side: Lean `File.build` == the Python generator's bytes; where `OK` holds the real class
+    reports `File.expected` (tempo changes anywhere, delta-times on every kind of event)"""
     name = "SMFspec"
 
     def damaged(self, rng, goods, scale):
